@@ -61,6 +61,22 @@ func planC14(tier string, root *simcore.RNG) *plan {
 			add(b, fmt.Sprintf("set-count:%d", c))
 		}
 	}
+	// E2b: every stored float of small binary files replaced by NaN, +-Inf, MaxFloat32, a subnormal
+	for _, n := range []int{1, 2, 5} {
+		b := bs("bin", n)
+		for t := 0; t < n; t++ {
+			for f := 0; f < 12; f++ {
+				off := 84 + 50*t + 4*f
+				for _, bits := range []string{"7fc00000", "7f800000", "ff800000", "7f7fffff", "00000001"} {
+					add(b, fmt.Sprintf("set-f32:%d:%s", off, bits))
+				}
+			}
+		}
+		// a whole triangle of NaNs / Infs, and a degenerate (all-equal) one
+		add(b, "set-f32:96:7fc00000", "set-f32:100:7fc00000", "set-f32:104:7fc00000", "set-f32:108:7fc00000", "set-f32:112:7fc00000", "set-f32:116:7fc00000", "set-f32:120:7fc00000", "set-f32:124:7fc00000", "set-f32:128:7fc00000")
+		add(b, "set-f32:96:7f800000", "set-f32:108:ff800000", "set-f32:120:7f800000")
+		add(b, "zero-sector:0")
+	}
 	// E3: crash images of the streaming writer at every flush index
 	for _, n := range []int{200, 1000} {
 		flushes := (binSize(n) + 4095) / 4096
